@@ -6,6 +6,7 @@ import OsacaVerif.Lemmas.LCDPost
 import OsacaVerif.Lemmas.DGEdges
 import OsacaVerif.Lemmas.Winding
 import OsacaVerif.Lemmas.EdgeLocal
+import OsacaVerif.Lemmas.LcdChar
 /-
   C05 — Loop-carried dependencies are exactly the cross-iteration dependency cycles.
   (Model: `LCD.lcd`; independent oracle: `Spec.cycles`.)
@@ -374,6 +375,119 @@ theorem dg_local_copies (isa : Isa) (fd : Bool) (par : Params) (floor : Nat) (pr
       rfl
     rw [← h2]
     exact h
+
+/-! ### the reported entries are exactly the winding-1 dependency cycles of the stream -/
+
+/-- members of a stream cycle as (line of the body instruction, edge latency leaving it) -/
+def cycleMembers (k : List Ins) (a : List (Nat × Rat)) : List (Nat × Rat) :=
+  a.map (fun x => (lineAt k (x.1 % k.length), x.2))
+
+/-- **lcd_sound** (∀ well-formed kernels): every reported entry is a dependency cycle of the
+    infinite repetition of the body — an ascending list of stream positions starting inside the
+    first iteration, each depending (`streamDep`, the dependency relation of `k^ω`) on the previous
+    one and closed by the dependency of the first instruction's next occurrence on the last; the
+    entry's (line, latency) pairs are exactly the cycle's members and its latency is the sum of the
+    edge latencies along the cycle. -/
+theorem lcd_sound (isa : Isa) (fd : Bool) (par : Params) (floor : Nat) (k : List Ins) (hwf : WFKernel k)
+    (e : Entry) (he : e ∈ lcd isa fd par floor k) :
+    ∃ a, IsStreamCycle (streamDep isa fd par k) k.length a ∧ StartsBelow k.length a ∧
+      (e.lines.zip e.lats).Perm (cycleMembers k a) ∧ e.latency = (a.map (·.2)).sum := by
+  obtain ⟨p, hp, _, _, hlat, _, _, _, hzip⟩ := entry_latency _ _ e he
+  obtain ⟨i, hi, hp⟩ := List.mem_flatMap.mp hp
+  have hwfK := double_wf floor k hwf
+  have hsimple := (lcd_paths_exact isa fd par floor k hwf i p).mp hp
+  obtain ⟨s, hs, rfl⟩ := List.getElem_of_mem hi
+  have hl1 : k[s].line = lineAt (double (offsetOf floor k) k) s := by
+    rw [lineAt_double_first _ k s hs, lineAt_lt k s hs]
+  have hl2 : k[s].line + offsetOf floor k = lineAt (double (offsetOf floor k) k) (s + k.length) := by
+    rw [lineAt_double_second _ k s hs, lineAt_lt k s hs]
+  obtain ⟨hhead, hwalk, _, _⟩ := hsimple
+  rw [hl2] at hwalk
+  obtain ⟨a, rfl, ha, hc⟩ := walk_to_chain isa fd par _ k hwfK (s + k.length) (by omega) p hwalk
+  cases a with
+  | nil => simp [toLine, verts] at hhead
+  | cons x rest =>
+    have hx : x.1 = s := by
+      have h1 : lineAt (double (offsetOf floor k) k) x.1 = lineAt (double (offsetOf floor k) k) s := by
+        rw [← hl1]; simpa [toLine, verts] using hhead
+      have := ha x List.mem_cons_self
+      exact wf_lineAt_inj _ hwfK _ _ (by rw [double_length]; exact this) (by rw [double_length]; omega) h1
+    refine ⟨x :: rest, ?_, ?_, ?_, ?_⟩
+    · show Chain _ (x.1 + k.length) (x :: rest)
+      rw [hx]; exact hc
+    · show x.1 < k.length
+      omega
+    · refine hzip.trans (List.Perm.of_eq ?_)
+      simp only [toLine, cycleMembers, List.map_map]
+      apply List.map_congr_left
+      intro y hy
+      simp only [Function.comp_apply, back]
+      rw [backLine_double _ k (offset_ok floor k) y.1 (ha y hy)]
+    · rw [hlat]; simp [toLine, Function.comp_def]
+
+/-- **lcd_complete** (∀ well-formed kernels): conversely every dependency cycle of the stream that
+    starts inside the first iteration is reported: there is an entry with exactly its members and
+    the sum of its edge latencies.  (Together with `post_dedup` — entries are pairwise different —
+    and `lcd_entry_shape` — strictly ascending lines — each cycle, as a member set, is reported once.) -/
+theorem lcd_complete (isa : Isa) (fd : Bool) (par : Params) (floor : Nat) (k : List Ins) (hwf : WFKernel k)
+    (a : List (Nat × Rat)) (hcyc : IsStreamCycle (streamDep isa fd par k) k.length a) (hstart : StartsBelow k.length a) :
+    ∃ e ∈ lcd isa fd par floor k, (e.lines.zip e.lats).Perm (cycleMembers k a) ∧ e.latency = (a.map (·.2)).sum := by
+  cases a with
+  | nil => exact absurd hcyc (fun h => h)
+  | cons x rest =>
+    have hwfK := double_wf floor k hwf
+    have hxn : x.1 < k.length := hstart
+    have hb := cycle_bounds _ _ x rest hcyc
+    have ha : ∀ y ∈ x :: rest, y.1 < 2 * k.length := fun y hy => by have := (hb y hy).2; omega
+    have hc : Chain (streamDep isa fd par k) (x.1 + k.length) (x :: rest) := hcyc
+    have hwalk := chain_to_walk isa fd par (offsetOf floor k) k hwfK (x.1 + k.length) (by omega) (x :: rest) ha hc
+    have hl1 : lineAt (double (offsetOf floor k) k) x.1 = k[x.1].line := by
+      rw [lineAt_double_first _ k x.1 hxn, lineAt_lt k x.1 hxn]
+    have hl2 : lineAt (double (offsetOf floor k) k) (x.1 + k.length) = k[x.1].line + offsetOf floor k := by
+      rw [lineAt_double_second _ k x.1 hxn, lineAt_lt k x.1 hxn]
+    rw [hl2] at hwalk
+    have hf : ForwardEdges (lcdGraph isa fd par floor k) := emissions_forward isa fd par _ hwfK
+    have hinc := walk_increasing _ hf _ _ hwalk
+    have hsimple : IsSimplePath (lcdGraph isa fd par floor k) k[x.1].line (k[x.1].line + offsetOf floor k)
+        (toLine (double (offsetOf floor k) k) (x :: rest)) := by
+      have hpw := List.pairwise_append.mp hinc
+      refine ⟨by simp [toLine, verts, hl1], hwalk, ?_, ?_⟩
+      · exact hpw.1.imp (fun h => Nat.ne_of_lt h)
+      · intro v hv
+        have := hpw.2.2 v (List.mem_of_mem_tail hv) _ (List.mem_singleton.mpr rfl)
+        omega
+    have hp := (lcd_paths_exact isa fd par floor k hwf k[x.1] _).mpr hsimple
+    have hmem : toLine (double (offsetOf floor k) k) (x :: rest) ∈
+        k.flatMap (fun i => pathsFrom (lcdGraph isa fd par floor k) (i.line + offsetOf floor k) (2 * k.length + 1) i.line [i.line]) :=
+      List.mem_flatMap.mpr ⟨k[x.1], List.getElem_mem hxn, hp⟩
+    obtain ⟨⟨e, he, hlines, hlats⟩, _⟩ := post_represents (offsetOf floor k) _ _ hmem
+    refine ⟨e, he, ?_, ?_⟩
+    · rw [hlines, hlats, zip_fst_snd]
+      refine (sortPairs_perm' _).trans (List.Perm.of_eq ?_)
+      simp only [toLine, cycleMembers, List.map_map]
+      apply List.map_congr_left
+      intro y hy
+      simp only [Function.comp_apply, back]
+      rw [backLine_double _ k (offset_ok floor k) y.1 (ha y hy)]
+    · obtain ⟨_, _, _, _, _, h1, _⟩ := entry_latency _ _ e he
+      rw [h1, hlats]
+      have := sum_perm ((sortPairs_perm' ((toLine (double (offsetOf floor k) k) (x :: rest)).map (back (offsetOf floor k)))).map (·.2))
+      rw [normPath, this]
+      simp [toLine, back, Function.comp_def]
+
+-- non-vacuity: in the three-instruction ring (3 → 4 → 7 → 3') the stream positions 1 → 2 → 3 (= 0 one
+-- iteration later) → 4 (= 1 one iteration later) form a cycle starting inside the body; its members
+-- are the lines 4, 7, 3 with the latencies 1, 2, 4 — the entry `lcd` reports has lines [3, 4, 7], latency 7
+example :
+    let r (n : String) : Op := .reg { name := Text.ofString n }
+    let mk (line : Nat) (src dst sd : List Op) (lat : Rat) : Ins :=
+      { line := line, src := src, dst := dst, srcDst := sd, lat := lat, latWoLoad := none, hasLd := false,
+        isLd := false, changes := [], changesPost := [] }
+    let k := [mk 3 [r "rbx"] [r "rax"] [] 4, mk 4 [r "rax"] [r "rcx"] [] 1, mk 7 [r "rcx"] [r "rbx"] [] 2]
+    IsStreamCycle (streamDep .x86 false {} k) 3 [(1, 1), (2, 2), (3, 4)] ∧ StartsBelow 3 [(1, (1 : Rat)), (2, 2), (3, 4)] ∧
+    cycleMembers k [(1, 1), (2, 2), (3, 4)] = [(4, 1), (7, 2), (3, 4)] ∧
+    ¬ IsStreamCycle (streamDep .x86 false {} k) 3 [(1, 1), (3, 4)] := by
+  decide +kernel
 
 -- non-vacuity: a two-instruction accumulation loop has exactly one loop-carried cycle
 example :
